@@ -4,8 +4,8 @@ package sim
 
 import (
 	"fmt"
-	"os"
 	"math/rand"
+	"os"
 	"sort"
 	"strings"
 	"sync"
@@ -35,20 +35,20 @@ const (
 
 // Event is one record of the log. Seq order is the only order oracles use.
 type Event struct {
-	Seq    int      `json:"seq"`
-	T      int64    `json:"t_ns"` // monotonic ns since world start
-	Kind   string   `json:"k"`
-	Proc   string   `json:"p,omitempty"`
-	Inst   int      `json:"i,omitempty"`   // instance id (Process object), 1-based, 0 = n/a
-	Att    int      `json:"a,omitempty"`   // launch number of that replica name, 1-based
-	Code   int      `json:"c,omitempty"`   // exit code / signal / http status
-	Str    string   `json:"s,omitempty"`   // status / op / cause
-	Str2   string   `json:"s2,omitempty"`  // health / result text
-	Argv   []string `json:"argv,omitempty"`
-	Env    []string `json:"env,omitempty"`
-	Dir    string   `json:"dir,omitempty"`
-	Restarts int    `json:"r,omitempty"`
-	Flag   bool     `json:"f,omitempty"`
+	Seq      int      `json:"seq"`
+	T        int64    `json:"t_ns"` // monotonic ns since world start
+	Kind     string   `json:"k"`
+	Proc     string   `json:"p,omitempty"`
+	Inst     int      `json:"i,omitempty"`  // instance id (Process object), 1-based, 0 = n/a
+	Att      int      `json:"a,omitempty"`  // launch number of that replica name, 1-based
+	Code     int      `json:"c,omitempty"`  // exit code / signal / http status
+	Str      string   `json:"s,omitempty"`  // status / op / cause
+	Str2     string   `json:"s2,omitempty"` // health / result text
+	Argv     []string `json:"argv,omitempty"`
+	Env      []string `json:"env,omitempty"`
+	Dir      string   `json:"dir,omitempty"`
+	Restarts int      `json:"r,omitempty"`
+	Flag     bool     `json:"f,omitempty"`
 }
 
 // Violation is an online-detected violation (overlap etc.).
@@ -62,10 +62,10 @@ type Violation struct {
 // Hold describes a bounded hold at a yield point.
 type Hold struct {
 	Point string `json:"point"`
-	Name  string `json:"name"`  // "" = any
-	Nth   int    `json:"nth"`   // hold the nth hit (1-based); 0 = first
+	Name  string `json:"name"`   // "" = any
+	Nth   int    `json:"nth"`    // hold the nth hit (1-based); 0 = first
 	MaxMs int    `json:"max_ms"` // bound
-	Tag   string `json:"tag"`   // release key
+	Tag   string `json:"tag"`    // release key
 }
 
 type procShadow struct {
